@@ -134,6 +134,8 @@ def gen_schema(rng, want=None, types_upper=None, profile=None):
 
     def mk_class(extra=None, id_type='unique_id', with_id=True, prefix='K'):
         kind = '%s%d' % (prefix, counter['k'])
+        if rng.random() < profile.get('p_mixed_kind', 0.2):
+            kind = '%sx%d' % (prefix, counter['k'])     # key letters are not all upper case
         counter['k'] += 1
         attrs = []
         if with_id:
